@@ -44,6 +44,68 @@ def msp430_text(i, at):
     return "%s%s %s" % (i["op"], sfx, opnd(i["d"]))
 
 
+RV_AT = 0x200000
+
+
+def rv32i_text(i):
+    op, rd, rs1, rs2, imm = i["op"], i["rd"], i["rs1"], i["rs2"], i["imm"]
+    if op in ("add", "sub", "sll", "slt", "sltu", "xor", "srl", "sra", "or", "and"):
+        return "%s x%d, x%d, x%d" % (op, rd, rs1, rs2)
+    if op in ("addi", "slti", "sltiu", "xori", "ori", "andi", "slli", "srli", "srai", "jalr"):
+        return "%s x%d, x%d, %d" % (op, rd, rs1, imm)
+    if op in ("lb", "lh", "lw", "lbu", "lhu"):
+        return "%s x%d, %d(x%d)" % (op, rd, imm, rs1)
+    if op in ("sb", "sh", "sw"):
+        return "%s x%d, %d(x%d)" % (op, rs2, imm, rs1)
+    if op in ("beq", "bne", "blt", "bge", "bltu", "bgeu"):
+        return "%s x%d, x%d, 0x%x" % (op, rs1, rs2, RV_AT + imm)
+    if op in ("lui", "auipc"):
+        return "%s x%d, %d" % (op, rd, imm)
+    if op == "jal":
+        return "jal x%d, 0x%x" % (rd, RV_AT + imm)
+    return op
+
+
+def arch_rv32i(chk, vdir, tier, rnd):
+    """third sentence of the property for RV32I: the assembled word is the encoding of the RISC-V manual (Rv32iEnc.tla)"""
+    import os
+    g = C.tlc("GenRv32iEnc", "gen_Rv32iEnc.cfg", os.path.join(chk.rundir, "genrv"), workers=4, heap="4g")
+    chk.add_tlc(g)
+    insts = C.parse_payload(g.lines, "CASE ")
+    if len(insts) < 7000:
+        raise C.InfraError("only %d RV32I instructions" % len(insts))
+    if tier == "quick":
+        insts = rnd.sample(insts, 2500)
+    cases = [("rv", "kind=asm cpu=riscv addr=%d" % RV_AT, "\n".join(rv32i_text(i) for i in insts))]
+    res = {o["case"]: o for o in C.conform_parallel(vdir, "codec", cases, chk.rundir, "archrv", 60, nproc=1)}
+    r = res.get("rv")
+    if not r or "res" not in r or len(r["res"]) != len(insts):
+        raise C.InfraError("RV32I cases not executed: %s" % str(r)[:300])
+    events = [dict(id="r%d" % n, i=i, acc=bool(ok), b=list(bytes.fromhex(b))) for n, (i, (ok, b)) in enumerate(zip(insts, r["res"]))]
+    canaries = set()
+    for e in rnd.sample([e for e in events if e["acc"] and abs(e["i"]["imm"]) < 1000], 10):
+        c = json.loads(json.dumps(e))
+        c["id"] = "canary." + e["id"]
+        c["b"][1] ^= 0x80
+        canaries.add(c["id"])
+        events.append(c)
+    verdicts, runs = C.tlc_accept("TraceRv32iEnc", "trace_Rv32iEnc.cfg", events, chk.rundir, "archrv", heap="3g", nchunks=4)
+    for r_ in runs:
+        chk.add_tlc(r_)
+    bad = {v["id"]: v["why"] for v in verdicts}
+    if [c for c in canaries if c not in bad]:
+        raise C.InfraError("RV32I canaries accepted")
+    byid = {e["id"]: e for e in events}
+    for vid, why in sorted(bad.items()):
+        if vid in canaries:
+            continue
+        e = byid[vid]
+        chk.report("C01:riscv:arch:%s:%s" % (why, e["i"]["op"]),
+                   "%s: '%s' at 0x%x -> %s" % (why, rv32i_text(e["i"]), RV_AT, bytes(e["b"]).hex()),
+                   dict(instruction=e["i"], at=RV_AT, text=rv32i_text(e["i"]), bytes=bytes(e["b"]).hex(), why=why))
+    return len(events) - len(canaries)
+
+
 def arch_msp430(chk, vdir, tier, rnd):
     """third sentence of the property for MSP430: the assembled bytes are an encoding of SLAU144 (Msp430Enc.tla)"""
     import os
@@ -171,8 +233,9 @@ def run(tier, seed):
                                                           json.dumps(o["walk"])[:300]),
                    dict(case=dict(id=c[0], opts=c[1], text=c[2]), observed=o, why=v["why"]))
     narch = arch_msp430(chk, vdir, tier, rnd)
+    nrv = arch_rv32i(chk, vdir, tier, rnd)
     chk.cov.update(dict(
-        evaluations=len(cases) + narch, msp430_architecture_cases=narch,
+        evaluations=len(cases) + narch + nrv, msp430_architecture_cases=narch, rv32i_architecture_cases=nrv,
         distinct_nontrivial=len({(c[1].split("cpu=")[1].split()[0], c[2]) for c in cases}),
         rule="instruction texts of tests/comparison/*.txt (read at run time) plus every distinct accepted rendering harvested "
              "from the decode side, assembled at one or two load addresses; every case is an instruction (non-trivial); "
